@@ -35,6 +35,7 @@ COMPONENTS = {
     "simulated": ["Dask executor", "storage (SimFS): listing order, latency, store mode", "uuid4"],
 }
 EXPECTED_PROBES = ["write_pandas", "write_dask", "read_pandas", "read_dask", "read_dask_list",
+                   "read_dask_list_unsorted",
                    "read_dask_glob", "columns_projection", "nonfloat64_subtype",
                    "sliced_or_concat_backing", "ge_11_partitions"]
 
@@ -78,7 +79,8 @@ def cases(tier, base_seed):
                 steps.append({"op": "read_dask", "how": "path", "ds": [rng.choice(
                     ["D0", "D1"] if split else ["D0"])], "columns": proj()})
             elif r < 0.8:
-                steps.append({"op": "read_dask", "how": "list", "ds": ["D0", "D1"],
+                steps.append({"op": "read_dask", "how": "list",
+                              "ds": rng.choice((["D0", "D1"], ["D1", "D0"])),
                               "columns": proj()})
             else:
                 steps.append({"op": "read_dask", "how": "glob", "ds": ["D0", "D1"],
@@ -200,6 +202,8 @@ def _drive(case, root, fs, probes, sig):
             elif step["how"] == "list":
                 arg = [paths[d] for d in dss]
                 probes["read_dask_list"] = 1
+                if dss != sorted(dss):
+                    probes["read_dask_list_unsorted"] = 1
             else:
                 arg = os.path.join(root, "dk", "ds_*")
                 probes["read_dask_glob"] = 1
@@ -209,7 +213,9 @@ def _drive(case, root, fs, probes, sig):
             if not isinstance(ddf, DaskGeoDataFrame):
                 raise Bad("type", f"read_parquet_dask returned {type(ddf).__name__}")
             got = _guard("read_parquet_dask.compute", lambda: ddf.compute(), sig)
-            rows = [r for d in sorted(dss) for r in model[d]]
+            # a list is read in the order given, a glob in sorted path order
+            order = dss if step["how"] == "list" else sorted(dss)
+            rows = [r for d in order for r in model[d]]
             _compare(got, spec, rows, cols, f"read_parquet_dask[{step['how']}]", GeoDataFrame, sig)
 
 
